@@ -736,6 +736,17 @@ namespace link_layer {
         // TODO Make handle_pending_ll_control() impossible to fail by checking PDUs immediately
         ll_result handle_pending_ll_control( std::uint16_t instance );
 
+        /*
+         * Returns true, if a procedure with the given instant can not be applied at its instant anymore.
+         *
+         * LL control PDUs are handled at the end of the connection event in which they were received,
+         * connection_event_counter() is still the counter of that connection event. The first connection
+         * event, at which a procedure can be applied is the next one. According to the Core Specification
+         * (Vol 6, Part B, 5.1.1), an instant is in the past, if
+         * ( instant - connEventCounter ) modulo 65536 is greater than or equal to 32767.
+         */
+        bool instant_passed( std::uint16_t instant ) const;
+
         connection_details details() const;
 
         static constexpr unsigned       first_advertising_channel   = 37;
@@ -1555,7 +1566,7 @@ namespace link_layer {
                 defered_conn_event_counter_ = read_16bit( &body[ 10 ] );
                 commit = false;
 
-                if ( static_cast< std::uint16_t >( defered_conn_event_counter_ - this->connection_event_counter() + 1 ) & 0x8000
+                if ( instant_passed( defered_conn_event_counter_ )
                     || defered_conn_event_counter_ == this->connection_event_counter() + 1 )
                 {
                     disconnecting_reason_ = connection_instant_passed;
@@ -1740,6 +1751,14 @@ namespace link_layer {
         }
 
         return result;
+    }
+
+    template < class Server, template < std::size_t, std::size_t, class > class ScheduledRadio, typename ... Options >
+    bool link_layer< Server, ScheduledRadio, Options... >::instant_passed( std::uint16_t instant ) const
+    {
+        const std::uint16_t distance = static_cast< std::uint16_t >( instant - this->connection_event_counter() );
+
+        return distance == 0 || distance >= 32767;
     }
 
     template < class Server, template < std::size_t, std::size_t, class > class ScheduledRadio, typename ... Options >
